@@ -116,6 +116,8 @@ void harness(void)
 		symx_assert(ren_noeol(s, i) < n - (n > 1), "ren_noeol never leaves the cursor on the terminator of a non-empty line");
 	}
 	}
+	for (i = n; i <= n + 2; i++)
+		symx_assert(ren_noeol(s, i) == (n > 1 ? n - 2 : 0), "ren_noeol clamps an offset past the end to the last character before the terminator");
 	free(pos);
 	symx_reach("end");
 }
